@@ -100,6 +100,9 @@ func checkC18(c *Ctx, r *Result, tier string) {
 					return
 				}
 			}
+			if c18CountCall(bo.X) != nil || c18CountCall(bo.Y) != nil {
+				return // line += strings.Count(text, "\n"): the bulk form, decided below
+			}
 			// is this an advance (stored back / feeding a phi), not the `line + 1` of an emitter?
 			advance := false
 			for _, ref := range *bo.Referrers() {
@@ -151,7 +154,6 @@ func checkC18(c *Ctx, r *Result, tier string) {
 			}
 		})
 	}
-	r.Floor("R18a", nAdv, 3)
 
 	// ---- R18d: every rune a line-counting loop examines is tested for being a newline ------------
 	nScan := 0
@@ -251,7 +253,6 @@ func checkC18(c *Ctx, r *Result, tier string) {
 				Msg: fmt.Sprintf("%s: the newline test that advances the line counter is applied to the rune read inside the loop only; the rune the loop is entered with (%s) is never tested — a line break in that position is not counted, and every later token is reported one line too low", key, strings.Join(untested, ", "))})
 		})
 	}
-	r.Floor("R18d", nScan, 2)
 
 	// ---- R18f: the separation test looks at the statement parsed last ------------------------------
 	// hasMoreStatements(p, current) compares the line of `current` with the line of the next token.
@@ -519,7 +520,268 @@ func checkC18(c *Ctx, r *Result, tier string) {
 			}
 		})
 	}
-	r.Floor("R18c", nWB, 2)
+	// ---- the bulk form: line += strings.Count(input[a:b], "\n") ------------------------------------
+	bAdv, bScan, bWB := c18Bulk(c, r, lexFuncs, emitFns, fLine, fLastnl, fPos, fStart, inClass)
+	r.Floor("R18a", nAdv+bAdv, 3)
+	r.Floor("R18d", nScan+bScan, 2)
+	r.Floor("R18c", nWB+bWB, 2)
+}
+
+// c18CountCall: v is strings.Count(text, "\n") (through numeric conversions).
+func c18CountCall(v ssa.Value) *ssa.Call {
+	call, ok := stripNumConv(v).(*ssa.Call)
+	if !ok || callName(call) != "strings.Count" || len(call.Call.Args) != 2 {
+		return nil
+	}
+	if sep, ok := constString(call.Call.Args[1]); !ok || sep != "\n" {
+		return nil
+	}
+	return call
+}
+
+// c18Bulk decides the three lexer rules for line counting done in bulk over a piece of the input:
+//
+//	text := l.input[a:b]; l.line += strings.Count(text, "\n"); l.lastnl = a + strings.LastIndex(text, "\n") + 1
+//
+// (R18a) the column base stored with the advance is the offset just behind the last newline of the
+// same text; (R18d) the text is [start, pos) of the lexer — every byte of the token is examined —
+// at every place the counting is invoked; (R18c) the token is emitted before the counting writes
+// the line back. The bounds may be parameters of an unexported helper: they are then taken from
+// the arguments at each call.
+func c18Bulk(c *Ctx, r *Result, lexFuncs []*ssa.Function, emitFns map[*ssa.Function]bool, fLine, fLastnl, fPos, fStart *types.Var,
+	inClass func(v ssa.Value, f *types.Var, seen map[ssa.Value]bool) bool) (nAdv, nScan, nWB int) {
+	isLoadOf := func(v ssa.Value, f *types.Var) bool {
+		u, ok := stripNumConv(v).(*ssa.UnOp)
+		return ok && u.Op == token.MUL && fieldVar(u.X) == f
+	}
+	sameSlice := func(a, b ssa.Value) bool {
+		if a == b {
+			return true
+		}
+		sa, ok1 := a.(*ssa.Slice)
+		sb, ok2 := b.(*ssa.Slice)
+		if !ok1 || !ok2 {
+			return false
+		}
+		eq := func(x, y ssa.Value) bool {
+			if x == nil || y == nil {
+				return x == y
+			}
+			return x == y || equivValue(x, y, 0)
+		}
+		return eq(sa.X, sb.X) && eq(sa.Low, sb.Low) && eq(sa.High, sb.High)
+	}
+	// flatten a sum into its non-constant addends and a constant
+	var flat func(v ssa.Value, d int) ([]ssa.Value, int64)
+	flat = func(v ssa.Value, d int) ([]ssa.Value, int64) {
+		v = stripNumConv(v)
+		if k, ok := constInt(v); ok {
+			return nil, k
+		}
+		if bo, ok := v.(*ssa.BinOp); ok && bo.Op == token.ADD && d < 6 {
+			a, ka := flat(bo.X, d+1)
+			b, kb := flat(bo.Y, d+1)
+			return append(a, b...), ka + kb
+		}
+		return []ssa.Value{v}, 0
+	}
+	for _, fn := range lexFuncs {
+		key := c.FuncKey(fn)
+		var emits []ssa.Instruction
+		allInstrs(fn, func(in ssa.Instruction) {
+			if ci, ok := in.(ssa.CallInstruction); ok {
+				if f := ci.Common().StaticCallee(); f != nil && emitFns[f] {
+					emits = append(emits, in)
+				}
+			}
+		})
+		allInstrs(fn, func(in ssa.Instruction) {
+			bo, ok := in.(*ssa.BinOp)
+			if !ok || bo.Op != token.ADD {
+				return
+			}
+			cnt := c18CountCall(bo.Y)
+			other := bo.X
+			if cnt == nil {
+				cnt, other = c18CountCall(bo.X), bo.Y
+			}
+			if cnt == nil || !inClass(other, fLine, map[ssa.Value]bool{}) {
+				return
+			}
+			// the advanced value is written to the lexer, or carried in a local line counter
+			var st ssa.Instruction
+			direct := false
+			for _, ref := range *bo.Referrers() {
+				switch x := ref.(type) {
+				case *ssa.Store:
+					if fieldVar(x.Addr) == fLine {
+						st, direct = x, true
+					}
+				case *ssa.Phi:
+					if st == nil {
+						st = x
+					}
+				}
+			}
+			if st == nil {
+				return
+			}
+			nAdv++
+			pos := c.Pos(c.InstrPos(in))
+			text, isSlice := cnt.Call.Args[0].(*ssa.Slice)
+			if !isSlice {
+				r.Instance("R18a", key+"#bulk-advance", pos, "finding", "the counted text is not a slice of the input", true)
+				r.Report(Finding{Rule: "R18a", Site: key + "#bulk-advance", Pos: pos,
+					Msg: key + ": the line counter is advanced by the newlines of a text whose offset in the input is not known (not a slice input[a:b]): the column base cannot be placed"})
+				return
+			}
+			// R18a: lastnl = low(text) + LastIndex(text, newline) + 1, stored in the same block, or in
+			// the block guarded by the test of that index
+			okA := false
+			nCand := 0
+			allInstrs(fn, func(x ssa.Instruction) {
+				// a value assigned to the column base: stored to lexer.lastnl, or flowing into a
+				// local of its class
+				var lsVal ssa.Value
+				var ls ssa.Instruction
+				if sx, isSt := x.(*ssa.Store); isSt && fieldVar(sx.Addr) == fLastnl {
+					lsVal, ls = sx.Val, sx
+				} else if vx, isBO := x.(*ssa.BinOp); isBO && vx.Op == token.ADD {
+					for _, ref := range *vx.Referrers() {
+						if ph, isPhi := ref.(*ssa.Phi); isPhi && inClass(ph, fLastnl, map[ssa.Value]bool{}) {
+							lsVal, ls = vx, vx
+						}
+					}
+				}
+				if ls == nil {
+					return
+				}
+				adds, k := flat(lsVal, 0)
+				hasIdx := false
+				for _, a := range adds {
+					if call, isCall := a.(*ssa.Call); isCall && (callName(call) == "strings.LastIndexByte" || callName(call) == "strings.LastIndex") {
+						hasIdx = true
+					}
+				}
+				if hasIdx {
+					nCand++
+				}
+				if k != 1 {
+					return
+				}
+				var idx *ssa.Call
+				var rest []ssa.Value
+				for _, a := range adds {
+					if call, isCall := a.(*ssa.Call); isCall && idx == nil {
+						switch callName(call) {
+						case "strings.LastIndexByte":
+							if b, ok := constInt(call.Call.Args[1]); ok && b == 10 && sameSlice(call.Call.Args[0], text) {
+								idx = call
+								continue
+							}
+						case "strings.LastIndex":
+							if sep, ok := constString(call.Call.Args[1]); ok && sep == "\n" && sameSlice(call.Call.Args[0], text) {
+								idx = call
+								continue
+							}
+						}
+					}
+					rest = append(rest, a)
+				}
+				if idx == nil {
+					return
+				}
+				lowOK := false
+				switch {
+				case text.Low == nil:
+					lowOK = len(rest) == 0
+				case len(rest) == 1:
+					lowOK = rest[0] == stripNumConv(text.Low) || equivValue(rest[0], stripNumConv(text.Low), 0)
+				}
+				if !lowOK {
+					return
+				}
+				if ls.Block() == st.Block() || ls.Block().Dominates(st.Block()) || st.Block().Dominates(ls.Block()) || ls.Block() == bo.Block() {
+					okA = true
+				}
+			})
+			_ = nCand
+			if okA {
+				r.Instance("R18a", key+"#bulk-advance", pos, "ok", "line += Count(text, newline) with lastnl = offset(text) + LastIndex(text, newline) + 1 of the same text", true)
+			} else {
+				r.Instance("R18a", key+"#bulk-advance", pos, "finding", "bulk line advance without the matching column base", true)
+				r.Report(Finding{Rule: "R18a", Site: key + "#bulk-advance", Pos: pos,
+					Msg: key + ": the line counter is advanced by the newlines of a text, but the last-newline offset is not set to the position behind the last newline of that same text: every token on the following line is reported with a wrong column"})
+			}
+			// the places the counting is invoked: here, or the call sites of this helper
+			type place struct {
+				in       ssa.Instruction
+				fn       *ssa.Function
+				low, hi  ssa.Value
+				emitters []ssa.Instruction
+			}
+			var places []place
+			lowP, _ := stripNumConvOrNil(text.Low).(*ssa.Parameter)
+			hiP, _ := stripNumConvOrNil(text.High).(*ssa.Parameter)
+			if lowP == nil && hiP == nil {
+				places = append(places, place{st, fn, text.Low, text.High, emits})
+			} else if n := c.CHA().Nodes[fn]; n != nil {
+				for _, e := range n.In {
+					if e.Site == nil || e.Site.Common().StaticCallee() != fn {
+						continue
+					}
+					args := e.Site.Common().Args
+					pick := func(v ssa.Value, p *ssa.Parameter) ssa.Value {
+						if p == nil {
+							return v
+						}
+						for i, q := range fn.Params {
+							if q == p && i < len(args) {
+								return args[i]
+							}
+						}
+						return v
+					}
+					cf := e.Caller.Func
+					var cem []ssa.Instruction
+					allInstrs(cf, func(y ssa.Instruction) {
+						if ci, ok := y.(ssa.CallInstruction); ok {
+							if f := ci.Common().StaticCallee(); f != nil && emitFns[f] {
+								cem = append(cem, y)
+							}
+						}
+					})
+					places = append(places, place{e.Site.(ssa.Instruction), cf, pick(text.Low, lowP), pick(text.High, hiP), cem})
+				}
+			}
+			sort.Slice(places, func(i, j int) bool { return c.Pos(c.InstrPos(places[i].in)) < c.Pos(c.InstrPos(places[j].in)) })
+			for i, pl := range places {
+				pk := fmt.Sprintf("%s#bulk-count#%d", c.FuncKey(pl.fn), i)
+				pp := c.Pos(c.InstrPos(pl.in))
+				nScan++
+				if pl.low != nil && isLoadOf(pl.low, fStart) && pl.hi != nil && isLoadOf(pl.hi, fPos) {
+					r.Instance("R18d", pk, pp, "ok", "the counted text is input[start:pos]: every byte of the token is examined for newlines", true)
+				} else {
+					r.Instance("R18d", pk, pp, "finding", "the counted text is not input[start:pos]", true)
+					r.Report(Finding{Rule: "R18d", Site: pk, Pos: pp,
+						Msg: fmt.Sprintf("%s: the newlines are counted in input[%s:%s], not in the whole token text input[start:pos] — a line break outside the counted part is not counted, and every later token is reported on a wrong line", c.FuncKey(pl.fn), optExpr(pl.low), optExpr(pl.hi))})
+				}
+				if !direct {
+					continue // a local line counter: its write-back to the lexer is a regular R18c instance
+				}
+				nWB++
+				wk := fmt.Sprintf("%s#bulk-writeback#%d", c.FuncKey(pl.fn), i)
+				if everyPathPasses(pl.fn, pl.in, pl.emitters) {
+					r.Instance("R18c", wk, pp, "ok", "every path to the counting that writes the advanced line back passes an emit (the token carries its start line)", true)
+				} else {
+					r.Instance("R18c", wk, pp, "finding", "line written back before the token is emitted", true)
+					r.Report(Finding{Rule: "R18c", Site: wk, Pos: pp,
+						Msg: c.FuncKey(pl.fn) + ": the advanced line is written back to the lexer on a path that has not emitted the token yet: a multi-line string or comment would carry the line of its end, not of its first character"})
+				}
+			}
+		})
+	}
+	return
 }
 
 // everyPathPasses: every path from the function entry to `target` executes one of `via` first.
